@@ -209,6 +209,16 @@ pub fn oti_new(rec: &mut Recorder, rng: &mut Rng, thorough: bool) {
             }
         }
     }
+    // every alignment with the symbol sizes at the top of the 16-bit range: the largest multiple of Al, its
+    // neighbours, and 65535 itself
+    for al in 1..=255u16 {
+        let top = 65535 / al * al;
+        for t in [top, top.saturating_sub(al), top.saturating_sub(1), 65535u16, 65534, 32768 / al * al, (32768 / al + 1).min(65535 / al) * al] {
+            if t == 0 { continue; }
+            let z = 1 + (al % 7) as u8;
+            cases.push((t as u64 * z as u64 * (1 + al as u64 % 50), t, z, 1, al as u8));
+        }
+    }
     // around the K'max limit: F = T*Z*56403 + delta
     for _ in 0..(if thorough { 20000 } else { 3000 }) {
         let t = if rng.chance(1, 2) { rng.range(1, 64) as u16 } else { rng.range(1, 65535) as u16 };
